@@ -8,7 +8,7 @@ res = {}
 for lf in logs:
     cur = None
     for line in open(lf):
-        m = re.match(r"#### (C\d+) (\w)", line)
+        m = re.match(r"#### (C\d+)[ -](\w+)", line)
         if m:
             cur = "%s-%s" % m.groups(); res[cur] = {"checks": {}, "failing": []}; continue
         if cur is None: continue
@@ -37,7 +37,7 @@ for d in sorted(glob.glob(V + "/seeded/C*-*")):
         "files_changed": am.get("files_changed", []),
         "origin": "written by a sub-agent that saw only the property text and a scratch worktree (nothing from /verif)",
         "confirmed": {"how": "tools/confirm_seeded.sh %s %s in scratch worktree /tmp/confirm: clean tree builds and demo prints PASS (exit 0); "
-                             "with patch.diff applied the library builds, /repo's test suite ends 'All tests were successful', the demo exits non-zero" % tuple(sid.split("-")),
+                             "with patch.diff applied the library builds, /repo's test suite ends 'All tests were successful', the demo exits non-zero" % (sid.split("-")[0], sid.split("-")[1]),
                       "observed": conf},
         "check_run": {"command": "git apply patch.diff in a scratch worktree W; VF_REPO=W ./vf check %s --tier quick (tools/try_seeded.sh)" % prop,
                       "exit_code": rc, "result": r.get("result", "not run yet"),
